@@ -5,6 +5,7 @@ import IrefVerif.Lemmas.PushList
 import IrefVerif.Lemmas.PopList
 import IrefVerif.Lemmas.ValidWF
 import IrefVerif.Lemmas.PathHandleRef
+import IrefVerif.Lemmas.SymAppend
 
 /-!
 # C10 — path editing has list semantics and touches nothing but the path
@@ -165,6 +166,66 @@ theorem clear_list (v : Text) : segs (clearView v) = [] ∧ isAbs (clearView v) 
 `remove_dot_segments`) -/
 theorem last_is_getLast (v : Text) (hp : PathText v) : Path.last v = (segs v).getLast? :=
   last_eq_getLast v hp
+
+/-! ## symbolic operations on an absolute path: directory meaning of `.` and `..` -/
+
+/-- **`symbolic_push` on an absolute path** whose literal segments are `.` shields followed by the
+dot-free list `e` (every state a handle reaches from a normalised absolute path): `.` changes
+nothing, `..` removes the last of `e` (nothing at the root), any other segment is appended — unless
+it is an empty segment pushed onto an empty path, which the code skips (the class of F15) -/
+theorem symbolic_push_abs (anch fa : Bool) (v s : Text) (e : List Text) (inv : AInv v e)
+    (hs : cSlash ∉ s) (hpt : PathText s)
+    (hskip : (s != segDot && s != segDotDot && s.isEmpty && e.isEmpty) = false) :
+    AInv (symPushView anch fa false v s).1 (Oracle.listSymPush true e s).1 ∧
+      (symPushView anch fa false v s).2 = (s == segDot || s == segDotDot) :=
+  ainv_step anch fa v s e inv hs hpt hskip
+
+/-- **`symbolic_append` on an absolute path**: the normalised sequence of the result is the walk of
+the appended segments from `e`, closed by one empty segment when the last appended segment was a
+dot segment (and the path is not empty) -/
+theorem symbolic_append_abs (anch fa : Bool) (v : Text) (e ss : List Text) (inv : AInv v e)
+    (hall : ∀ s ∈ ss, cSlash ∉ s ∧ PathText s) (hsk : Findings.symSkipsGo true e ss = false) :
+    ∃ c, nsegs (symAppendView anch fa false v ss) = walk e ss ++ c ∧ (c = [] ∨ c = [[]]) ∧
+      (walk e ss ≠ [] → c = if lastDot ss then [[]] else []) ∧
+      isAbs (symAppendView anch fa false v ss) = true := by
+  obtain ⟨i1, f1⟩ := ainv_loop anch fa ss v false e inv hall hsk
+  have ho : (symAppendGoView anch fa false v false ss).2 = lastDot ss := by
+    rw [f1]
+    split
+    · rename_i h; subst h; rfl
+    · rfl
+  unfold symAppendView closeView
+  rw [ho]
+  by_cases hc : (lastDot ss && !Path.is_empty (symAppendGoView anch fa false v false ss).1) = true
+  · simp only [hc, if_true]
+    have i2 := ainv_push anch fa _ [] _ i1 (by simp) (by intro c hc; cases hc) (by decide) (by decide)
+    simp only [Bool.and_eq_true] at hc
+    exact ⟨[[]], ainv_nsegs i2, .inr rfl, fun _ => by simp [hc.1], i2.abs⟩
+  · have hc' : (lastDot ss && !Path.is_empty (symAppendGoView anch fa false v false ss).1) = false := by
+      simpa using hc
+    simp only [hc', Bool.false_eq_true, if_false]
+    refine ⟨[], by rw [List.append_nil]; exact ainv_nsegs i1, .inl rfl, fun hne => ?_, i1.abs⟩
+    by_cases hl : lastDot ss = true
+    · rw [hl] at hc'
+      have hem : Path.is_empty (symAppendGoView anch fa false v false ss).1 = true := by simpa using hc'
+      obtain ⟨k, hk⟩ := i1.shape
+      rw [is_empty_segs hem] at hk
+      have : walk e ss = [] := by
+        have := congrArg List.length hk
+        simp at this
+        exact List.eq_nil_of_length_eq_zero (by omega)
+      exact absurd this hne
+    · simp [hl]
+
+/-- a normalised absolute path is such a state -/
+theorem normalized_abs_state (fa : Bool) (p : Text) (hp : PathText p) (habs : isAbs p = true) :
+    AInv (normView fa false p) (nsegs p) := by
+  obtain ⟨hr, ha⟩ := normView_realises fa false p hp
+  refine ⟨by rw [ha]; exact habs, pathText_normView _ _ _ hp, ?_, ?_⟩
+  · unfold nsegs; rw [habs]; exact ⟨nsegsOf_noDot _ _, nsegsOf_abs_noDotDot _⟩
+  · rcases realises_cases hr with h | h
+    · exact ⟨0, by rw [h]; rfl⟩
+    · exact ⟨1, by rw [h]; rfl⟩
 
 /-- non-vacuity: a history through one handle inside a URI, computed by the model -/
 example : (pathRun (Ref.path_mut [0x73, 0x3A, 0x2F, 0x2F, 0x68, 0x3F, 0x71])
